@@ -34,6 +34,7 @@ func verifC08Run(ep int) {
 	flag := nondetBool("req.updateIfChanged")
 	val := nondetSeq("req.value")
 	var doc []byte
+	bodyClass := 0
 	docKind := nondetChoice("body.kind", 3)
 	switch docKind {
 	case 0:
@@ -57,6 +58,7 @@ func verifC08Run(ep int) {
 		doc, _ = json.Marshal(struct{ Name int }{Name: 7}) // wrong type for a field
 	case 2:
 		doc = nondetSeq("body.garbage")
+		bodyClass = jsonClass(doc) // 0 only if the body is exactly one JSON value: judged by the harness, not by the handler's decoder
 	}
 	paths := []string{"/api/list", "/api/get", "/api/info", "/api/put", "/api/activate", "/api/delete", "/api/delete-version"}
 	r := verifNewRequest(paths[ep], doc)
@@ -93,6 +95,7 @@ func verifC08Run(ep int) {
 	undecodable := ghostCount("json.decode.failed") > 0
 	if len(verifDBCalls) > 0 {
 		assert("store-reached-only-by-wellformed-identified-json-request", and(gateOK, identOK, !undecodable))
+		assert("store-reached-only-by-a-body-that-is-exactly-one-json-document", bodyClass == 0)
 	}
 	if !and(gateOK, identOK) || undecodable {
 		assert("rejected-request-never-reaches-store", len(verifDBCalls) == 0)
@@ -277,6 +280,8 @@ func verifHarnessC17Backup() {
 	verifBackup.readers = map[*bytes.Reader][]byte{}
 	verifBackupClock, verifBackupUploadTimes, verifBackupAttemptTimes = 0, nil, nil
 	verifBackupCancelNow, verifDecidedAtWait = false, -1
+	// a database write may land between the loop's reading of the generation and its reading of the file (at one chosen read)
+	verifBackup.raceRead, verifBackup.reads = nondetChoice("write.races.file.read.number", 4), 0
 	ctx := &verifBackupCtx{}
 	var _ context.Context = ctx
 
